@@ -168,6 +168,7 @@ class ContractDB:
         self.spec_funcs: dict[str, ast.FunctionDef] = {}
         self.external_returns: dict[str, ast.expr] = {}  # external method name -> type expression of its result
         self.aggregates: dict[str, dict] = {}  # name -> {over: owning dict field, fields: [..], contrib: Lambda, cls: class target}
+        self.persistent_fields: set[str] = set()  # fields holding pyrsistent PMap / PVector values: .set / .append return NEW containers
         self.as_record: set[str] = set()  # non-frozen dataclasses that the code under contract never mutates nor compares by identity
         self.external_raises: dict[str, list[str]] = {}  # external method / constructor name -> exception classes it may raise
         self.pure_modules: dict[str, str] = {}
@@ -211,6 +212,9 @@ class ContractDB:
                     kw = {k.arg: k.value for k in c.keywords}
                     self.aggregates[c.args[0].value] = {"over": kw["over"].value, "fields": [e.value for e in kw["fields"].elts], "contrib": kw["contrib"],
                                                         "module": kw["module"].value, "cls": kw["cls"].value}
+                elif n == "persistent_fields":
+                    for a in c.args:
+                        self.persistent_fields.add(a.value)
                 elif n == "treat_as_record":
                     for a in c.args:
                         self.as_record.add(a.value)
